@@ -1,5 +1,7 @@
 import KoordVerif.Proofs.C05Ledger
 import KoordVerif.Proofs.C05Index
+import KoordVerif.Proofs.C05ExtPod
+import KoordVerif.Proofs.C05ExtPipe
 /-
 C05 — reservations are never over-allocated and only serve their owners.
 
@@ -63,6 +65,49 @@ theorem remask_only_update_drifts_counterexample :
     cexInfo.allocated 1 = sumReq cexInfo.names cexInfo.assigned 1 ∧
     ¬ ((updInfoRemask cexInfo cexObj).allocated 1
         = sumReq (updInfoRemask cexInfo cexObj).names (updInfoRemask cexInfo cexObj).assigned 1) := by
+  decide
+
+/-! ## 1b. the informer pod-handler path (pod_eventhandler.go) -/
+
+/-- ROUTING: every add/update of a live pod that is assigned to a node and names a reservation reaches
+    reservationCache.updatePod — also when the reservation is the same before and after -/
+theorem handler_routes_every_assigned_update (c : Cache) (old : Option HPod) (n : HPod)
+    (hterm : n.term = false) (hnode : n.node ≠ 0) (hu : n.rAlloc ≠ 0) :
+    podUpdate c old n = updatePod c (oldUOf old) n.rAlloc (old.map (·.pod)) (some n.pod) :=
+  podUpdate_routes c old n hterm hnode hu
+
+/-- after the handler processed an add/update of a live, assigned pod whose well-formed annotation names the
+    cached reservation `u`, `u` records the pod with its CURRENT requests: when the pod stays in the same
+    reservation (in-place resize, label / status change) and when it was not recorded there before (bind,
+    move from another reservation, an earlier add that was dropped because `u` was not cached yet).
+    With `ledger_exact` the reported Allocated then is the sum of the current requests. -/
+theorem handler_records_current_requests (c : Cache) (old : Option XPod) (n : XPod) (r0 : RInfo)
+    (hph : n.phase ≠ 2 ∧ n.phase ≠ 3) (hnode : n.node ≠ 0) (hk : n.annKind = 1) (hu : n.annUid ≠ 0)
+    (hr : findInfo c n.annUid = some r0)
+    (hold : ∀ o, old = some o → o.pod.uid = n.pod.uid)
+    (hcase : (∃ o, old = some o ∧ o.annKind = 1 ∧ o.annUid = n.annUid) ∨ hasPod r0.assigned n.pod.uid = false) :
+    ∃ r, findInfo (xpodUpdate c old n) n.annUid = some r ∧ findPod r.assigned n.pod.uid = some n.pod :=
+  xpodUpdate_records_current c old n r0 hph hnode hk hu hr hold hcase
+
+/-- only a well-formed annotation with a non-empty uid names a reservation (absent / malformed JSON / uid "" = none) -/
+theorem handler_annotation_shapes (k u : Nat) : rAllocOf k u ≠ 0 ↔ k = 1 ∧ u ≠ 0 := rAllocOf_ne_zero k u
+
+/-- a Succeeded / Failed pod is handled as a delete of the NEW object -/
+theorem handler_terminated_is_delete (c : Cache) (old : Option XPod) (n : XPod) (h : n.phase = 2 ∨ n.phase = 3) :
+    xpodUpdate c old n = podDelete c n.toH := xpod_terminated_is_delete c old n h
+
+def hxObj : RObj :=
+  { uid := 1, node := 2, phase := 1, once := false, term := false, policy := 2, optKind := 0, opt := fun _ => false,
+    tmpl := fun _ => 900, tmplHas := fun _ => true, st := fun _ => 900, stHas := fun _ => true, maxPods := -1,
+    reserved := vzero, ownBad := false }
+def hxPod (q : Int) : HPod := { pod := { uid := 7, empty := false, req := fun _ => q }, node := 2, term := false, rAlloc := 1 }
+def hxBase : Cache := podUpdate (onAdd Cache.empty hxObj) none (hxPod 137)
+
+/-- why the routing matters (seeded change C05-c, `podUpdateOnlyOnChange`): if updatePod is only called when the
+    reservation uid changes, an in-place resize 137 -> 500 inside reservation 1 leaves Allocated = 137 -/
+theorem route_only_on_change_is_stale_counterexample :
+    (podUpdate hxBase (some (hxPod 137)) (hxPod 500)).infos.map (fun r => r.allocated 0) = [500] ∧
+    ¬ ((podUpdateOnlyOnChange hxBase (some (hxPod 137)) (hxPod 500)).infos.map (fun r => r.allocated 0) = [500]) := by
   decide
 
 /-! ## 2. restricted fit -/
@@ -219,6 +264,91 @@ theorem index_lists_every_live (c : Cache) (h : IndexInv c) :
     ∀ r ∈ c.infos, r.node ≠ 0 ∧ (r.node, r.uid) ∈ c.onNode :=
   fun r hr => ⟨h.node_ne r hr, (h.on_iff _ _).mpr ⟨r, hr, rfl, rfl⟩⟩
 
+/-! ## 6. the scheduling cycle: what NominateReservation returns is what Reserve assumes the pod into -/
+
+/-- the reservation a pod is nominated for (and assumed into by Reserve) has an owner entry the pod satisfies -/
+theorem pipeline_nominated_owner (c : Cache) (x : CycIn) (u : Nat) (h : Nominated c x u) :
+    ∃ r ∈ matchedOf c x, r.uid = u ∧ (candOf x r.uid).ownerOK = true ∧ r.parseErr = false := by
+  obtain ⟨r, hr, hu, _⟩ := nominate_sound c x u h
+  exact ⟨r, hr, hu, matched_owner c x r hr⟩
+
+/-- restricted fit at Reserve time, for EVERY nomination path (filters or the single-candidate shortcut): if the
+    cycle got past Filter, a Restricted reservation the pod is nominated for satisfies the fit inequality on the
+    cycle's snapshot -/
+theorem pipeline_restricted_fit (c : Cache) (x : CycIn) (u : Nat) (h : Nominated c x u) (hflt : filterM c x = 0) :
+    ∃ r ∈ matchedOf c x, r.uid = u ∧ (r.policy = 2 →
+      ∀ d, d < dims → r.names d = true → x.pod.req d ≠ 0 →
+        (if r.allocated d - vzero d < 0 then 0 else r.allocated d - vzero d) + x.pod.req d ≤ r.alloc d - r.reserved d) := by
+  obtain ⟨r, hr, hu, hcase⟩ := nominate_sound c x u h
+  refine ⟨r, hr, hu, fun hp => ?_⟩
+  have hboth : fitsBoth c x r = true := by
+    rcases hcase with ⟨ha, hm, _⟩ | hn
+    · exact (filter_single_affinity c x r ha hm hflt).2
+    · exact (nomFilterOK_sound c x r hn).2.2
+  exact restricted_fit_sound r x.pod.req vzero 0 (fitsBoth_restricted c x r hboth hp)
+
+/-- allocate-once at pipeline level, FULL statement (after repair fb4a3dc of the single-candidate shortcut): whatever
+    NominateReservation returns — through the nominate filters or through the shortcut for a pod with reservation
+    affinity — is not an allocate-once reservation that already holds a pod on the cycle's snapshot -/
+theorem pipeline_allocate_once (c : Cache) (x : CycIn) (u : Nat) (h : Nominated c x u) :
+    ∃ r ∈ matchedOf c x, r.uid = u ∧ nominateGate r = false := by
+  obtain ⟨r, hr, hu, hcase⟩ := nominate_sound c x u h
+  refine ⟨r, hr, hu, ?_⟩
+  rcases hcase with ⟨_, _, hg⟩ | hn
+  · exact hg
+  · exact (nomFilterOK_sound c x r hn).1
+
+/-- the statement proved before the repair (kept): it holds unless affinity AND single candidate -/
+theorem pipeline_allocate_once_partial (c : Cache) (x : CycIn) (u : Nat) (h : Nominated c x u)
+    (_hns : ¬ (x.hasAff = true ∧ (matchedOf c x).length = 1)) :
+    ∃ r ∈ matchedOf c x, r.uid = u ∧ nominateGate r = false := pipeline_allocate_once c x u h
+
+/-- in particular a pod WITHOUT reservation affinity is never nominated for an allocate-once reservation that
+    already holds a pod (the clause the seeded change C05-d breaks) -/
+theorem pipeline_no_affinity_allocate_once (c : Cache) (x : CycIn) (u : Nat) (h : Nominated c x u)
+    (hna : x.hasAff = false) : ∃ r ∈ matchedOf c x, r.uid = u ∧ ¬ (r.once = true ∧ r.assigned ≠ []) := by
+  have _ := hna
+  obtain ⟨r, hr, hu, hg⟩ := pipeline_allocate_once c x u h
+  refine ⟨r, hr, hu, fun ⟨h1, h2⟩ => ?_⟩
+  rw [allocate_once_gate r h1 h2] at hg
+  cases hg
+
+/-- Reserve / Unreserve of a cycle keep every ledger exact (they are the cache's addPods / deletePods) -/
+theorem pipeline_reserve_keeps_ledger (c : Cache) (x : CycIn) (u code : Nat) (h : LedgerInv c) (hp : PodPre x.pod) :
+    LedgerInv (reserveM c x u).1 ∧ LedgerInv (unreserveM (reserveM c x u).1 x u code) := by
+  have h1 : LedgerInv (reserveM c x u).1 := by
+    unfold reserveM
+    split
+    · exact h
+    · exact ledger_addPods c u [x.pod] h (by intro p hp'; simp at hp'; subst hp'; exact hp)
+  refine ⟨h1, ?_⟩
+  unfold unreserveM
+  split
+  · exact ledger_deletePods _ u [x.pod.uid] h1
+  · exact h1
+
+def pxObj : RObj :=
+  { uid := 1, node := 1, phase := 1, once := true, term := false, policy := 0, optKind := 0, opt := fun _ => false,
+    tmpl := fun _ => 4000, tmplHas := fun _ => true, st := fun _ => 4000, stHas := fun _ => true, maxPods := -1,
+    reserved := vzero, ownBad := false }
+/-- allocate-once reservation 1 on node 1, pod 10 already assumed, no reservation event since -/
+def pxCache : Cache := (addPods (onAdd Cache.empty pxObj) 1 [{ uid := 10, empty := false, req := fun _ => 100 }]).1
+/-- pod 11 with reservation affinity, owner-matched, node with plenty of room -/
+def pxCyc (aff : Bool) : CycIn :=
+  { pod := { uid := 11, empty := false, req := fun _ => 100 }, qHas := fun _ => true, hasAff := aff, hasName := false,
+    node := 1, nAlloc := fun _ => 100000, nTotal := fun _ => 4100,
+    cands := [{ uid := 1, ownerOK := true, nameMatch := false, affOK := true }], chosen := 0, unreserve := false }
+
+/-- why the gate in the shortcut is needed: with the shape before repair fb4a3dc (`nominateG false`) a pod with a
+    reservation affinity whose single candidate is an allocate-once reservation that already holds a pod (the index
+    has not been refreshed by a reservation event) gets that reservation, Filter passes, and Reserve assumes the
+    second pod.  Found on the then-unchanged tree: C05:pipeline-allocate-once-renominated-affinity. -/
+theorem pipeline_affinity_shortcut_counterexample :
+    filterM pxCache (pxCyc true) = 0 ∧
+    nomUid (pxCyc true) (nominateG false pxCache (pxCyc true)) = 1 ∧
+    (matchedOf pxCache (pxCyc true)).all (fun r => nominateGate r) = true ∧
+    nomUid (pxCyc true) (nominateM pxCache (pxCyc true)) = 0 := by decide
+
 /-! ## non-vacuity: the hypotheses hold on a non-trivial history -/
 
 def exObj (names01 : Bool) : RObj :=
@@ -252,6 +382,15 @@ example : (run Cache.empty (exOps.take 3)).infos.map
     (fun r => fitOK (fitsReservation r (fun d => if d == 0 then 763 else 0) vzero 0)) = [true] := by decide
 example : (run Cache.empty (exOps.take 3)).infos.map
     (fun r => fitOK (fitsReservation r (fun d => if d == 0 then 764 else 0) vzero 0)) = [false] := by decide
+
+-- the pipeline hypotheses are satisfiable: the witness state gets past PreFilter and Filter, with affinity the second
+-- pod is assumed, without affinity nothing is nominated; a fresh re-usable state nominates through the filters
+example : preFilterM pxCache (pxCyc true) = 0 ∧ filterM pxCache (pxCyc true) = 0 ∧
+    nomUid (pxCyc true) (nominateM pxCache (pxCyc true)) = 0 ∧ nomUid (pxCyc false) (nominateM pxCache (pxCyc false)) = 0 := by decide
+example : ((reserveM pxCache (pxCyc true) 1).1.infos.map (fun r => r.assigned.length)) = [2] := by decide
+example : Nominated (onAdd Cache.empty pxObj) (pxCyc true) 1 := by decide  -- the shortcut on a fresh allocate-once reservation
+example : Nominated (onAdd Cache.empty { pxObj with once := false, policy := 2 }) (pxCyc false) 1 ∧
+    filterM (onAdd Cache.empty { pxObj with once := false, policy := 2 }) (pxCyc false) = 0 := by decide
 
 def exCtx : MatchCtx :=
   { ignored := false, hasName := false, nameMatch := false, exact := true, unschedulable := false,
